@@ -440,3 +440,32 @@ func (r *Reach) Cases(v ssa.Value) []ValueCase {
 	rec(v, nil, 0)
 	return out
 }
+
+// Compatible reports whether conjunction cj is consistent with at least one conjunct of d
+// (no atom with opposite polarity). Used to ask "can a path satisfying cj have passed through a block whose reach is d?".
+func Compatible(cj Conj, d DNF) bool {
+	for _, o := range d {
+		ok := true
+		for k, l := range o {
+			if m, has := cj[k]; has && m.Neg != l.Neg {
+				ok = false
+				break
+			}
+		}
+		if ok {
+			return true
+		}
+	}
+	return false
+}
+
+// Restrict returns the conjuncts of d that are compatible with through.
+func Restrict(d DNF, through DNF) DNF {
+	var out DNF
+	for _, cj := range d {
+		if Compatible(cj, through) {
+			out = append(out, cj)
+		}
+	}
+	return out
+}
